@@ -44,6 +44,98 @@ fn selector(doc: &Value) -> Value {
     json!({"checked": checked, "mismatch": null})
 }
 
+/// spec/SelectorConc.tla: two notifiers of one subscriber object.  {"seqs":[{"prior":p,"order":[v1,v2],
+/// "out":[..],"waits":bool}]}: the first caller is held inside its callback; where the model has the
+/// second one waiting for the mutex, it must neither return nor deliver until the first is released.
+fn selconc(doc: &Value) -> Value {
+    use std::sync::atomic::{AtomicBool, AtomicU64, Ordering};
+    let seqs = doc["seqs"].as_array().cloned().unwrap_or_default();
+    let mut checked = 0u64;
+    let mut waited = 0u64;
+    for s in &seqs {
+        let prior = s["prior"].as_i64().unwrap();
+        let order: Vec<i64> = s["order"].as_array().unwrap().iter().map(|v| v.as_i64().unwrap()).collect();
+        let exp: Vec<i64> = s["out"].as_array().unwrap().iter().map(|v| v.as_i64().unwrap()).collect();
+        let waits = s["waits"].as_bool().unwrap();
+        let got: Arc<Mutex<Vec<i64>>> = Arc::new(Mutex::new(Vec::new()));
+        let armed = Arc::new(AtomicBool::new(false));
+        let in_cb = Arc::new(AtomicU64::new(0));
+        let gate = Arc::new((Mutex::new(false), Condvar::new()));
+        let (g2, a2, i2, gt2) = (got.clone(), armed.clone(), in_cb.clone(), gate.clone());
+        let sub = Arc::new(SelectorSubscriber::new(Ident, move |v: i64, _a: i64| {
+            g2.lock().unwrap().push(v);
+            if a2.load(Ordering::SeqCst) {
+                i2.fetch_add(1, Ordering::SeqCst);
+                let (m, cv) = &*gt2;
+                let mut open = m.lock().unwrap();
+                while !*open {
+                    open = cv.wait(open).unwrap();
+                }
+            }
+        }));
+        if prior != 0 {
+            sub.on_notify(&prior, &0);
+            got.lock().unwrap().clear();
+        }
+        armed.store(true, Ordering::SeqCst);
+        let fail = |what: &str, have: Vec<i64>| {
+            json!({"checked": checked, "mismatch": {"prior": prior, "order": order, "expected": exp, "got": have, "what": what}})
+        };
+        let open_gate = || {
+            let (m, cv) = &*gate;
+            *m.lock().unwrap() = true;
+            cv.notify_all();
+        };
+        if !waits {
+            open_gate();
+        }
+        let (sa, va) = (sub.clone(), order[0]);
+        let mut ha = Some(std::thread::spawn(move || sa.on_notify(&va, &1)));
+        if waits {
+            let t0 = Instant::now();
+            while in_cb.load(Ordering::SeqCst) == 0 && t0.elapsed() < Duration::from_secs(3) {
+                std::thread::sleep(Duration::from_micros(100));
+            }
+            if in_cb.load(Ordering::SeqCst) == 0 {
+                open_gate();
+                let _ = ha.take().unwrap().join();
+                return fail("the first notifier did not reach its callback", got.lock().unwrap().clone());
+            }
+        } else {
+            let _ = ha.take().unwrap().join();
+        }
+        let (sb, vb) = (sub.clone(), order[1]);
+        let hb = std::thread::spawn(move || sb.on_notify(&vb, &2));
+        if waits {
+            let t0 = Instant::now();
+            let mut early = false;
+            while t0.elapsed() < Duration::from_millis(40) {
+                if hb.is_finished() || in_cb.load(Ordering::SeqCst) > 1 || got.lock().unwrap().len() > 1 {
+                    early = true;
+                    break;
+                }
+                std::thread::sleep(Duration::from_micros(200));
+            }
+            let have = got.lock().unwrap().clone();
+            open_gate();
+            let _ = ha.take().unwrap().join();
+            let _ = hb.join();
+            if early {
+                return fail("the second notifier went ahead while the first was still inside its callback", have);
+            }
+            waited += 1;
+        } else {
+            let _ = hb.join();
+        }
+        let have = got.lock().unwrap().clone();
+        if have != exp {
+            return fail("callbacks", have);
+        }
+        checked += 1;
+    }
+    json!({"checked": checked, "waited": waited, "mismatch": null})
+}
+
 // ------------------------------------------------------------------------------------ builder (C17)
 
 use rs_store::{
@@ -329,6 +421,7 @@ fn main() {
     let doc: Value = serde_json::from_str(&std::fs::read_to_string(&args[2]).expect("read")).expect("parse");
     let r = match args[1].as_str() {
         "selector" => selector(&doc),
+        "selconc" => selconc(&doc),
         "builder" => builder(&doc),
         _ => json!({"error": "unknown mode"}),
     };
